@@ -90,11 +90,30 @@ fn main() {
         ctx.say(&format!("VIOLATION property={} replay={}", id, path));
         std::process::exit(1);
     }
+    // replay tier: every committed regression case of this property is re-judged first
+    let mut regress_failed = false;
+    let mut regress_n = 0u64;
+    if let Ok(rd) = std::fs::read_dir("/verif/replays/regress") {
+        let mut files: Vec<_> = rd.filter_map(|e| e.ok()).map(|e| e.path()).filter(|p| p.file_name().and_then(|n| n.to_str()).map(|n| n.starts_with(&format!("{}-", id)) && n.ends_with(".json")).unwrap_or(false)).collect();
+        files.sort();
+        for path in files {
+            let Ok(text) = std::fs::read_to_string(&path) else { continue };
+            let Ok(v) = serde_json::from_str::<serde_json::Value>(&text) else { continue };
+            let part = v.get("part").and_then(|p| p.as_str()).unwrap_or("").to_string();
+            let case = v.get("case").cloned().unwrap_or(serde_json::Value::Null);
+            regress_n += 1;
+            if !props::replay(&ctx, &id, &part, &case) {
+                ctx.say(&format!("VIOLATION property={} replay={}", id, path.display()));
+                regress_failed = true;
+            }
+        }
+    }
+    ctx.extra("regression_replays", serde_json::json!(regress_n));
     if !props::run(&ctx, &id) {
         ctx.say(&format!("unknown property id {}", id));
         ctx.cleanup();
         std::process::exit(2);
     }
     let code = finish(&ctx);
-    std::process::exit(code);
+    std::process::exit(if regress_failed { 1 } else { code });
 }
